@@ -12,6 +12,7 @@ import (
 var checks = map[string]func(*engine.Report){
 	"C02": engine.CheckC02,
 	"C07": engine.CheckC07,
+	"C10": engine.CheckC10,
 	"C03": engine.CheckC03,
 	"C04": engine.CheckC04,
 	"C05": engine.CheckC05,
